@@ -190,6 +190,17 @@ class C05(Prop):
                               second_req_kinds=self.SECOND)
         if rng.random() < 0.15:
             gen.add_on_demand(rng, cfg, ops)
+        if rng.random() < 0.3:
+            # hooks that veto, fail or raise around signals, stops and reaps:
+            # whatever they answer, the loop must stay alive
+            for wc in cfg['watchers']:
+                if rng.random() < 0.7:
+                    wc['hooks'] = gen.gen_hooks(
+                        rng, names=('before_signal', 'after_signal',
+                                    'before_stop', 'after_stop',
+                                    'before_reap', 'after_reap',
+                                    'before_spawn', 'after_spawn'),
+                        p=0.4, bad_p=0.5)
         return {'cfg': cfg, 'ops': ops}
 
     def run(self, case):
